@@ -31,7 +31,22 @@ pub fn build(draws: &[u16], tier: Tier) -> Case {
         4 => ("mixed", gen::sync_prog(&mut s, &SyncParams { mutex: true, channel: true, atomics: true, ordered_locks: true, max_threads: 3, max_ops: 6 + extra, ..sp.clone() })),
         _ => ("condvar-yield", gen::sync_prog(&mut s, &SyncParams { condvar: true, atomics: true, yields: true, max_threads: 2, max_ops: 6 + extra, joins: true, ..sp.clone() })),
     };
+    let mut prog = prog;
+    let mut explicit = false;
+    if s.chance(1, 6) {
+        // the bound together with the exploration controls: a prefix of main runs with exploration
+        // switched off (so the first scheduling decisions are recorded as non-exploring)
+        let k = 1 + s.pick(prog.threads[0].len().max(1));
+        let k = k.min(prog.threads[0].len());
+        prog.threads[0].insert(k, Op::Explore);
+        if s.chance(1, 2) {
+            prog.threads[0].insert(0, Op::StopExploring);
+        } else {
+            explicit = true;
+        }
+    }
     let mut c = Case::new("C15", family, prog);
+    c.cfg.expect_explicit_explore = explicit;
     c.cfg.max_permutations = Some(tier.iter_cap());
     c.cfg.max_branches = 5000;
     c.x.n = Some(s.pick(6) as i64);
@@ -106,6 +121,9 @@ pub fn eval(case: &Case) -> Verdict {
         }
     }
     v.label(&format!("bound{}", n));
+    if p.has(|o| matches!(o, Op::Explore)) {
+        v.label("with_exploration_controls");
+    }
     v.label(&format!("threads{}", p.n_threads()));
     let r0 = if n == 0 { None } else { Some(run(p, &case.cfg, Some(0))) };
     let l0 = r0.as_ref().map(|r| &r.l).unwrap_or(&rn.l);
